@@ -1259,6 +1259,8 @@ impl Interp {
             }
             Builtin::Identity => Ok(args),
             Builtin::Noop => Ok(vec![]),
+            Builtin::ReturnNil => Ok(vec![Value::Nil]),
+            Builtin::IdentityOrNil => Ok(if args.is_empty() { vec![Value::Nil] } else { args }),
             Builtin::IpairsIter => {
                 let t = self.check_table(&args, 0)?;
                 let i = self.check_num(&args, 1)? + 1.0;
